@@ -13,7 +13,7 @@ Definition attrs_ok (a : tattrs) : bool :=
 Definition ref_in {V} (m : list (str * V)) (r : option str) : bool :=
   match r with None => true | Some [] => false | Some k => map_mem k m end.
 Definition run_ok {V} (styles : list (str * V)) (r : trun) : bool :=
-  no_nl (tr_text r) && ref_in styles (tr_style r) && attrs_ok (tr_attrs r).
+  no_nl (tr_txt r) && ref_in styles (tr_style r) && attrs_ok (tr_attrs r).
 Definition item_ok {V W} (styles : list (str * V)) (regions : list (str * W)) (it : titem) : bool :=
   (0 <=? ti_st it)%Z && (ti_st it <=? max_int64)%Z && (0 <=? ti_en it)%Z && (ti_en it <=? max_int64)%Z
   && ref_in regions (ti_region it) && ref_in styles (ti_style it) && attrs_ok (ti_attrs it)
